@@ -128,7 +128,51 @@ def classify(seg, idx):
         if sorted(ret) == sorted(o["ord"][:o["k"]]):
             return "closest-wrong-order"
         return "closest-wrong-set"
-    return "table-after-%s" % o["op"]
+    return "%s-after-%s" % (_table_clause(seg, idx), o["op"])
+
+
+def _table_clause(seg, idx):
+    """Which requirement on the table the rejected event breaks (mirrors KadRouting!PropFrame, for the
+    signature only)."""
+    head = json.loads(seg[0])
+    K = head["K"]
+    tab = {c["i"]: c["b"] for c in head["init"]}
+    led = {e[0] for b in tab.values() for e in b if e[4] == 1 and e[1] == "C"}
+    known = lambda t: {e[0] for b in t.values() for e in b if e[4] == 1}
+    for n, ln in enumerate(seg[1:idx], 2):
+        ev = json.loads(ln)
+        if ev.get("e") != "op":
+            continue
+        o, ret = ev["o"], ev["ret"]
+        new = dict(tab)
+        for c in ev["ch"]:
+            new[c["i"]] = c["b"]
+        if n == idx:
+            own = {o["p"]} if "p" in o else set()
+            if any(len(b) > K for b in new.values()):
+                return "bucket-over-capacity"
+            if any(e[4] == 1 and e[3] == 999 for b in new.values() for e in b):
+                return "local-node-stored"
+            if any(e[4] == 1 and e[3] != i for i, b in new.items() for e in b):
+                return "peer-in-wrong-bucket"
+            ids = [e[0] for b in new.values() for e in b if e[4] == 1]
+            if len(ids) != len(set(ids)):
+                return "peer-stored-twice"
+            conn = {e[0] for b in tab.values() for e in b if e[4] == 1 and (e[1] == "C" or e[0] in led)}
+            if (conn - own) - known(new):
+                return "connected-peer-displaced"
+            if known(new) - known(tab) - own:
+                return "unknown-peer-stored"
+            return "table"
+        if o["op"] == "est":
+            led.add(o["p"])
+        elif o["op"] == "disc":
+            led.discard(o["p"])
+        elif (o["op"] == "add" and o["ha"] == 1) or (o["op"] == "insert" and ret == "vacant"):
+            (led.add if o["conn"] == "C" else led.discard)(o["p"])
+        tab = new
+        led &= known(tab)
+    return "table"
 
 
 def seg_of(lines, n):
